@@ -230,7 +230,8 @@ Results(s, sg) ==
           ELSE IF ~(HasTok(s.tokDay) \/ s.hasWd)
                  THEN <<y, m, DIM(y, m), tv[1], tv[2], tv[3], tv[4]>>
           ELSE IF ~HasTok(s.tokYear) /\ d = 29 /\ m = 2 /\ ~IsLeap(y)
-                 THEN <<CorrectLeapYear(sg.pdf, y), m, d, tv[1], tv[2], tv[3], tv[4]>>
+                 THEN LET ny == CorrectLeapYear(sg.pdf, y) IN          \* datetime() rejects a leap year outside 1..9999
+                      IF ny < 1 \/ ny > 9999 THEN Fail ELSE <<ny, m, d, tv[1], tv[2], tv[3], tv[4]>>
           ELSE Fail
 
 \* ------------------------------------------------------------------ _correct_for_time_frame (parser.py:482-581)
